@@ -325,6 +325,7 @@ type ReplayFile struct {
 }
 
 type Summary struct {
+	StoppedEarly string       `json:"stopped_early,omitempty"`
 	Check      string         `json:"check"`
 	Tier       string         `json:"tier"`
 	BaseSeed   int64          `json:"base_seed"`
@@ -535,9 +536,24 @@ func TestSim(t *testing.T) {
 		own[p] = true
 	}
 
+	maxHeap := uint64(envInt("VERIF_MAX_HEAP_MB", 3000)) << 20
 	for k := int64(0); k < count; k++ {
 		if budget > 0 && time.Since(start) > budget {
 			break
+		}
+		if k%16 == 15 {
+			// the sandbox has no memory limit: a worker whose heap keeps growing
+			// stops taking plans (its summary says how many it ran)
+			var ms runtime.MemStats
+			runtime.ReadMemStats(&ms)
+			if ms.HeapInuse > maxHeap {
+				runtime.GC()
+				runtime.ReadMemStats(&ms)
+				if ms.HeapInuse > maxHeap {
+					sum.StoppedEarly = fmt.Sprintf("heap in use %d MB after %d runs", ms.HeapInuse>>20, sum.Runs)
+					break
+				}
+			}
 		}
 		idx := offset + k*stride
 		seed := mix64(uint64(base)*0x9e3779b97f4a7c15 ^ mix64(uint64(idx)+0x51ed270b))
